@@ -176,7 +176,9 @@ class Interp(object):
             if cond:
                 return
             cond = z3.BoolVal(False)
-        self.path.oblige(self.oblname("side/" + name), cond, kind="side")
+        f = self.frame
+        drop = ("qfact",) if (f is not None and getattr(f, "active_hints", None)) else None
+        self.path.oblige(self.oblname("side/" + name), cond, kind="side", drop=drop)
 
     def side_nonzero(self, z):
         if self.spec_mode:
@@ -341,6 +343,8 @@ class Interp(object):
             return StrSeq([Tok(str(v.ident), "strid", v.ident)])
         if isinstance(v, Opaque):
             return StrSeq([Tok("str(%s)" % v.name, "any", v)])
+        if is_z3(v) or isinstance(v, fractions.Fraction):
+            return StrSeq([Tok("str(%s)" % (v,), "number", v)])
         raise OutOfSubset("str() of %r" % (v,))
 
     def e_UnaryOp(self, node, env):
